@@ -17,6 +17,60 @@ ASSUMPTIONS = ["the user callback takes ownership of the descriptor it is given"
 CONFIGS = ["build", "assert"]
 
 
+def rule_peer(P, fname="listener_read_cb"):
+    """the peer's address: accept(2) reads the length argument as the room it may fill and writes the address length back, so the length handed to every accept must be the size of the
+    address buffer again, and the callback must get that buffer and that length"""
+    r = Rule("C44-peer", "K1/K8", "every accept is given the full size of the address buffer (the in/out length is set again between two accepts) and the callback gets that buffer and the length accept wrote", floor=2)
+    f = P.fn(fname)
+    accs = [el for el in f.calls() if callee_name(el.e) in ("evutil_accept4_", "accept", "accept4")]
+    if not accs:
+        r.brk("no accept call in listener_read_cb")
+        return r
+    for el in accs:
+        a = el.e[2]
+        lenarg = strip(a[2]) if len(a) > 2 else None
+        bufarg = None
+        for q in walk(a[1]):
+            if is_e(q, "addr") and is_e(strip(q[1]), "var"):
+                bufarg = strip(q[1])
+        if not (is_e(lenarg, "addr") and is_e(strip(lenarg[1]), "var")) or bufarg is None:
+            r.brk("accept call %s: address/length arguments not recognised" % show(el.e)[:60])
+            return r
+        lv = strip(lenarg[1])
+
+        def sets_full(x):
+            e = x.e
+            rhs = None
+            if e[0] == "decl" and e[1] == lv[1] and len(e) > 3:
+                rhs = e[3]
+            elif e[0] == "asg" and e[1] == "=" and eq(strip(e[2]), lv):
+                rhs = e[3]
+            if rhs is None:
+                return False
+            return any(is_e(q, "sizeof") for q in walk(rhs)) or (is_e(strip(rhs), "int") and strip(rhs)[1] >= 128)
+        # (a) set before the first accept
+        first = f.path_avoiding((f.entry, -1), lambda x: x is el, sets_full)
+        # (b) set again on every way from one accept to the next
+        again = f.path_avoiding(el.pos(), lambda x: x is el, sets_full)
+        r.inst(("len", el.n), {"site": el.where(), "call": show(el.e)[:70], "length_variable": lv[1], "full_size_before_first": first is None, "full_size_again_before_next": again is None})
+        if first is not None:
+            r.bad("K1:listener_read_cb:accept-length-unset", el.where(), f.name, "accept is reached without %s having been set to the size of the address buffer" % lv[1])
+        if again is not None:
+            r.bad("K1:listener_read_cb:accept-length-stale", el.where(), f.name,
+                  "from one accept to the next %s is not set to the size of the address buffer again: it still holds the previous peer's address length, and a longer address is truncated to it (the callback is told the wrong peer)" % lv[1])
+        # (c) the callback gets that buffer and that length
+        for c in f.calls():
+            if isinstance(c.e[1], list) and c.e[1] and c.e[1][0] in ("ptr", "slot") and len(c.e[2]) == 5:
+                args = c.e[2]
+                if len(args) >= 4:
+                    okb = any(is_e(q, "var") and q[1] == bufarg[1] for q in walk(args[2]))
+                    okl = any(is_e(q, "var") and q[1] == lv[1] for q in walk(args[3]))
+                    r.inst(("cb", c.n), {"site": c.where(), "call": show(c.e)[:80], "address_is_accept_buffer": okb, "length_is_accept_length": okl})
+                    if not (okb and okl):
+                        r.bad("K8:listener_read_cb:callback-address", c.where(), f.name, "the callback is not given the buffer and length accept filled: %s" % show(c.e)[:80])
+    return r
+
+
 def run(ctx, config):
     P = ctx.prog(UNITS, config)
     rules = []
@@ -181,4 +235,5 @@ def run(ctx, config):
             if not ok and not in_ctor:
                 r3.bad("K4:%s:listening-fd-closed-unconditionally" % g.name, el.where(), g.name, "closes %s without the LEV_OPT_CLOSE_ON_FREE test" % show(arg))
     rules.append(r3)
+    rules.append(rule_peer(P, f.name))
     return rules
